@@ -1,5 +1,5 @@
 #!/usr/bin/env python3
-# Sets the vacuity-guard minimum of every claim pattern to ~95% of the number of obligations it matched in the
+# Sets the vacuity-guard minimum of every claim pattern from the number of obligations it matched in the
 # last run recorded in evidence/<ID>.json (never lowers a minimum that the run satisfied with margin < 5%).
 # Run after `./check <ID>` on the unchanged tree; commit the changed claims files.
 import json, sys, glob, os
@@ -18,7 +18,12 @@ for p in sorted(glob.glob(root + "/claims/C*.json")):
         m = got.get(c["match"])
         if m is None:
             continue
-        new = max(1, int(m * 0.95)) if m > 20 else max(1, m - 1)
+        # bounded-tier groups are sized by the enumeration (independent of the code): tight guard; proof/sweep groups
+        # shrink when code is legitimately simplified: the guard only has to notice a contract that no longer attaches
+        if c["match"].startswith("bnd/"):
+            new = max(1, int(m * 0.9))
+        else:
+            new = max(1, int(m * 0.5))
         if new != c.get("min"):
             c["min"] = new; ch = True
     if ch:
